@@ -28,7 +28,7 @@ def main():
     if os.path.exists(os.path.join(OUT, "history.json")):
         hist = json.load(open(os.path.join(OUT, "history.json")))
     for d in sorted(os.listdir(SRC)):
-        m = re.fullmatch(r"([CNPQRSTUVWXYZ]\d\d)-out", d)
+        m = re.fullmatch(r"([CMNPQRSTUVWXYZ]\d\d)-out", d)
         if not m:
             continue
         prop = m.group(1)
